@@ -5,9 +5,10 @@
    should (good) or should not pass, then read-only operations are applied; after the
    evaluation and after every operation the harness records the abstract
    state of the live result (verdict, digest number of the recorded
-   statistics, digest number of the inputs; number 0 = the value right after
-   the evaluation) and of the last duplicate produced by copy / pickle /
-   reeval.
+   statistics, digest number of the inputs; number 0 = for the statistics the
+   value right after the evaluation, for the inputs the value they had BEFORE
+   the test was constructed and evaluated: the evaluation must not edit what
+   it was given) and of the last duplicate produced by copy / pickle / reeval.
 
    TLC walks every trace event by event as a behaviour of Observe: the
    variables of Observe are set to what was observed and each step is judged
@@ -23,7 +24,7 @@ Kinds == {"equal", "approx", "student", "bonferroni", "holm", "chi2", "metadata"
           "stats-tasks", "stats-tests", "stats-bylabels", "failed", "external"}
 Origins == {"evaluate", "direct", "unpickled"}
 AlwaysBad == {"failed"}
-PlainOps == {"bool", "oracles", "counts", "data", "fingerprint", "copy", "pickle", "reeval"}
+PlainOps == {"bool", "oracles", "counts", "data", "fingerprint", "copy", "pickle", "reeval", "sibling"}
 VerbOps == {"table", "plot", "full", "rst", "draw"}
 Verbs == 0 .. 5
 MaxLen == 100000
